@@ -697,12 +697,24 @@ func findIndexBlockFull(body *ast.BlockStmt, name string) ([]ast.Stmt, []ast.Stm
 	return pre, full, idx
 }
 
+// incDecAsAssign rewrites x++ / x-- as x += 1 / x -= 1.
+func incDecAsAssign(st ast.Stmt) ast.Stmt {
+	if id, ok := st.(*ast.IncDecStmt); ok {
+		tok := token.ADD_ASSIGN
+		if id.Tok == token.DEC {
+			tok = token.SUB_ASSIGN
+		}
+		return &ast.AssignStmt{Lhs: []ast.Expr{id.X}, TokPos: id.TokPos, Tok: tok, Rhs: []ast.Expr{&ast.BasicLit{ValuePos: id.TokPos, Kind: token.INT, Value: "1"}}}
+	}
+	return st
+}
+
 func (t *tr) indexFragment(pre []ast.Stmt, idx ast.Expr) string {
 	if len(pre) == 0 {
 		e, _ := t.expr(idx)
 		return e
 	}
-	switch s := pre[0].(type) {
+	switch s := incDecAsAssign(pre[0]).(type) {
 	case *ast.AssignStmt:
 		return t.assign(s, func() string { return t.indexFragment(pre[1:], idx) })
 	case *ast.ExprStmt, *ast.DeferStmt:
@@ -725,7 +737,7 @@ func (t *tr) storeFragment(list []ast.Stmt, field string) string {
 		return s
 	}
 	rest := func() string { return t.storeFragment(list[1:], field) }
-	switch s := list[0].(type) {
+	switch s := incDecAsAssign(list[0]).(type) {
 	case *ast.ReturnStmt:
 		// a return expression may still write the field (atomic.Add inside it)
 		for _, r := range s.Results {
